@@ -530,7 +530,12 @@ var keyKinds = []string{"1", "0", "-1", `"s"`, `""`, "null", "true", "[1]", `{"a
 
 func TestC10ByExprKeys(t *testing.T) {
 	n := 0
-	for _, fn := range []string{"sort_by", "max_by", "min_by"} {
+	for _, fnv := range []string{"sort_by", "max_by", "min_by", "sort_by:sort_by([@, @], &i)[0].k", "sort_by:max_by([@], &i).k", "max_by:map(&k, [@])[0]", "min_by:(sort(`[2,1]`) && k)", "sort_by:min_by(sort_by([@, @], &i), &i).k"} {
+		fn, keyExpr := fnv, "k"
+		if i := strings.Index(fnv, ":"); i >= 0 {
+			// the key expression itself calls functions (state of the outer call while an inner one runs)
+			fn, keyExpr = fnv[:i], fnv[i+1:]
+		}
 		for length := 0; length <= 3; length++ {
 			idx := make([]int, length)
 			for {
@@ -545,10 +550,10 @@ func TestC10ByExprKeys(t *testing.T) {
 					}
 				}
 				doc := "[" + strings.Join(elems, ",") + "]"
-				key := "k"
+				key := keyExpr
 				if hasErr {
 					// the key expression fails (abs of a string) exactly on the marked elements
-					key = "(e && abs(k)) || k"
+					key = "(e && abs(k)) || " + keyExpr
 				}
 				run(t, Case{Property: "C10", Kind: "diff", Expr: fn + "(@, &" + key + ")", Doc: doc})
 				n++
@@ -838,6 +843,8 @@ var errSeeds = []struct{ class, expr string }{
 	{"zero-step-padded-neg", "`[1,2]`[1::-00000000000000000000]"},
 	{"inconsistent-key", "sort_by(`[1,\"a\"]`, &@)"},
 	{"bad-key", "max_by(`[[1]]`, &@)"},
+	{"inconsistent-key-nested-call", "sort_by(`[{\"k\":1,\"i\":0},{\"k\":\"a\",\"i\":1},{\"k\":2,\"i\":2}]`, &sort_by([@, @], &i)[0].k)"},
+	{"inconsistent-key-nested-call-last", "max_by(`[{\"k\":1,\"i\":0},{\"k\":2,\"i\":1},{\"k\":\"a\",\"i\":2}]`, &max_by([@], &i).k)"},
 	{"variadic-type", "merge(`{}`, `1`)"},
 	{"expref-as-value", "to_string(&@)"},
 	{"nested", "length(abs(`\"a\"`))"},
